@@ -16,6 +16,11 @@ CHECKS = {
         technique="Coq proof: generator methods refine a 4-field specification automaton for every operation history; the property's sentences are lemmas about the automaton; exhaustive short histories run against the real package",
         text="C09_machine_is_automaton + C09_* lemmas (Props_C09.v): Current/Result pure, zero before first advance and after exhaustion, exhaustion permanent without running generator code, Send semantics incl. auto-start, Result = return value. Tied to the code by exhaustive histories (length<=4 quick, <=6 thorough) over a generator family plus random terms, compared with machine and automaton models.",
         note=RT_NOTE, design="§6 C09"),
+    "C10": dict(
+        technique="Coq proof per iterator (integer, string, slice, channel; map partial) against a range specification, UTF-8 decoder proved against the RFC 3629 encoder; exhaustive byte strings + native-range differential run on the real constructors",
+        text="C10_integer, C10_string (all byte strings), C10_decoder_roundtrip (all scalar values), C10_slice (all lengths, all bodies), C10_chan, C10_map_partial (Props_C10.v). Every run compares seq.New*Iter with Go's native range on ~170k inputs (exhaustive strings <=4 over a 20-byte alphabet, NaN/nil map keys, mutation scripts) and evaluates the Coq models on the same inputs.",
+        note="Trusted: Coq kernel + vm_compute; Iters.v as model of seq/iter.go and Utf8.v as model of utf8.DecodeRuneInString (both compared with the implementation on every run); Go map iteration/reflect.MapIter and channels are the Go runtime's (map theorem covers only the type assertions). No axioms.",
+        design="§6 C10"),
     "C14": dict(
         technique="Coq proof: k generators in one heap under any schedule = k independent reference generators sharing only the user world (frame lemma: an operation touches only its own cells); exhaustive schedules, solo-vs-interleaved comparison and race detector on the real runtime",
         text="C14_interleaving (Props_C14.v) for every number of generators and every schedule of operations. Partial by nature: goroutines/memory model are not modelled; parallel consumption is checked with the Go race detector on sampled cases.",
